@@ -310,6 +310,35 @@ func c19Keys() map[string]any {
 	}
 	var entries, norm []any
 	var wrapper []any
+	// file-level integer constants (the upper bounds of the widths): name -> literal
+	consts := map[string]string{}
+	for _, d := range file.Decls {
+		gd, ok := d.(*ast.GenDecl)
+		if !ok || gd.Tok != token.CONST {
+			continue
+		}
+		for _, sp := range gd.Specs {
+			vs, ok := sp.(*ast.ValueSpec)
+			if !ok {
+				continue
+			}
+			for i, n := range vs.Names {
+				if i < len(vs.Values) {
+					if bl, ok := vs.Values[i].(*ast.BasicLit); ok && bl.Kind == token.INT {
+						consts[n.Name] = bl.Value
+					}
+				}
+			}
+		}
+	}
+	resolve := func(e ast.Expr) string {
+		if id, ok := e.(*ast.Ident); ok {
+			if v, ok := consts[id.Name]; ok {
+				return v
+			}
+		}
+		return c19Src(fset, e)
+	}
 	for _, d := range file.Decls {
 		fd, ok := d.(*ast.FuncDecl)
 		if !ok || fd.Body == nil {
@@ -357,20 +386,36 @@ func c19Keys() map[string]any {
 					}
 				case *ast.IfStmt:
 					ok := x.Init == nil && x.Else == nil && len(x.Body.List) == 1
-					var field, cond string
+					var field, cond, to string
 					if be, isBin := x.Cond.(*ast.BinaryExpr); ok && isBin {
 						f, okf := c19Sel(be.X, "settings")
 						field, ok = f, okf
-						cond = be.Op.String() + " " + c19Src(fset, be.Y)
+						cond = be.Op.String() + " " + resolve(be.Y)
 					} else {
 						ok = false
 					}
 					if ok {
-						want := fmt.Sprintf("settings.%s = defaults.%s", field, field)
-						ok = c19Src(fset, x.Body.List[0]) == want
+						// `settings.F = defaults.F` or `settings.F = <constant>`
+						asg, isAsg := x.Body.List[0].(*ast.AssignStmt)
+						ok = isAsg && asg.Tok == token.ASSIGN && len(asg.Lhs) == 1 && len(asg.Rhs) == 1
+						if ok {
+							lhs, okl := c19Sel(asg.Lhs[0], "settings")
+							ok = okl && lhs == field
+						}
+						if ok {
+							if rhs, okr := c19Sel(asg.Rhs[0], "defaults"); okr && rhs == field {
+								to = "default"
+							} else if _, isIdent := asg.Rhs[0].(*ast.Ident); isIdent {
+								to = resolve(asg.Rhs[0])
+							} else if bl, isLit := asg.Rhs[0].(*ast.BasicLit); isLit && bl.Kind == token.INT {
+								to = bl.Value
+							} else {
+								ok = false
+							}
+						}
 					}
 					if ok {
-						norm = append(norm, map[string]any{"f": field, "cond": cond})
+						norm = append(norm, map[string]any{"f": field, "cond": cond, "to": to})
 					} else {
 						norm = append(norm, map[string]any{"unknown": c19Src(fset, x)})
 					}
@@ -435,9 +480,9 @@ var c19Tree = []c19Leaf{
 	{"completion", "fuzzyMatching", 'b', nil}, {"completion", "showCounts", 'b', nil},
 	{"diagnostics", "undeclaredAccounts", 'b', nil}, {"diagnostics", "undeclaredCommodities", 'b', nil},
 	{"diagnostics", "unbalancedTransactions", 'b', nil},
-	{"formatting", "indentSize", 'i', []string{"1", "2", "3", "4", "8", "12"}},
+	{"formatting", "indentSize", 'i', []string{"1", "2", "3", "4", "8", "12", "31", "32", "33", "64", "1000", "1001"}},
 	{"formatting", "alignAmounts", 'b', nil},
-	{"formatting", "minAlignmentColumn", 'i', []string{"0", "10", "30", "40", "60", "80"}},
+	{"formatting", "minAlignmentColumn", 'i', []string{"0", "10", "30", "40", "60", "80", "499", "500", "501", "1000", "1001", "100000"}},
 	{"cli", "enabled", 'b', nil},
 	{"cli", "path", 's', []string{"hledger", "/nonexistent/hledger-a", "/nonexistent/hledger-b"}},
 	{"cli", "timeout", 'i', []string{"1", "500", "30000", "60000"}},
@@ -695,7 +740,7 @@ func (g *c19Gen) payload() any {
 	g.c.Count(fmt.Sprintf("payload.wrap%d", depth))
 	for i := 0; i < depth; i++ {
 		w := map[string]any{"hledger": v}
-		if r.IntN(12) == 0 { // siblings next to the wrapper
+		if r.IntN(4) == 0 { // siblings next to the wrapper
 			for k, val := range g.settingsMap() {
 				w[k] = val
 			}
@@ -703,9 +748,22 @@ func (g *c19Gen) payload() any {
 		}
 		v = w
 	}
-	if r.IntN(40) == 0 { // wrapper member of the wrong type, with siblings
+	if r.IntN(10) == 0 { // a "hledger" member that is not an object, next to settings (at the innermost level)
 		m := v.(map[string]any)
-		m["hledger"] = pick(r, []any{nil, c19num("1"), "x", []any{}, true})
+		lvl := r.IntN(depth + 1)
+		for d := 0; d < lvl; d++ {
+			inner, ok := m["hledger"].(map[string]any)
+			if !ok {
+				break
+			}
+			m = inner
+		}
+		if lvl < depth && len(m) == 1 { // only the wrapper there: put settings next to it
+			for k, val := range g.settingsMap() {
+				m[k] = val
+			}
+		}
+		m["hledger"] = pick(r, []any{nil, c19num("1"), "x", []any{}, true, []any{map[string]any{"completion.maxResults": c19num("3")}}, ""})
 		g.c.Count("payload.wrapper-ill-typed")
 	}
 	return v
@@ -791,20 +849,29 @@ func genC19(c *Ctx) {
 	// every leaf x every value of the fixed pools, both forms, with and without wrapper
 	c19Exhaustive(c)
 	genC19Seq(c)
+	genC19Targeted(c)
 }
 
 func c19Exhaustive(c *Ctx) {
 	def := c19View(server.VerifDefaultServerSettings())
 	emit := func(l c19Leaf, lit string) {
-		for form := 0; form < 3; form++ {
+		for form := 0; form < 7; form++ {
 			var txt string
 			switch form {
 			case 0:
 				txt = fmt.Sprintf(`{%q:{%q:%s}}`, l.sec, l.name, lit)
 			case 1:
 				txt = fmt.Sprintf(`{%q:%s}`, l.sec+"."+l.name, lit)
-			default:
+			case 2:
 				txt = fmt.Sprintf(`{"hledger":{%q:{%q:%s}}}`, l.sec, l.name, lit)
+			case 3: // next to an empty section
+				txt = fmt.Sprintf(`{"hledger":{},%q:{%q:%s}}`, l.sec, l.name, lit)
+			case 4: // next to a "hledger" member that is not an object
+				txt = fmt.Sprintf(`{"hledger":%s,%q:%s}`, []string{"null", "5", `"x"`, "[]", "true"}[c.R.IntN(5)], l.sec+"."+l.name, lit)
+			case 5: // next to a section whose own "hledger" member is not an object
+				txt = fmt.Sprintf(`{"hledger":{"hledger":null,%q:%s}}`, l.sec+"."+l.name, lit)
+			default: // two levels deep, dotted
+				txt = fmt.Sprintf(`{"hledger":{"hledger":{%q:%s}}}`, l.sec+"."+l.name, lit)
 			}
 			c.Emit("c19.parse", c19ParseCase(def, []string{txt}))
 			c.Count("exhaustive")
@@ -1090,7 +1157,17 @@ func c19SeqCase(c *Ctx, events []any) map[string]any {
 	return map[string]any{"events": outEvents, "impl": impl}
 }
 
-func c19Num(v any) float64 { f, _ := v.(float64); return f }
+// c19Num: a number of an event, as built by the generator (int) or decoded from a replay file
+// (float64).
+func c19Num(v any) float64 {
+	switch x := v.(type) {
+	case float64:
+		return x
+	case int:
+		return float64(x)
+	}
+	return 0
+}
 
 // ---------------------------------------------------------------- behaviour probes
 
@@ -1183,9 +1260,11 @@ func (ru *c19Run) observe(c *Ctx, reuse bool) map[string]any {
 		}
 		obs["subsequenceItems"] = n2
 	}
-	// formatting: indent and alignment column.  The formatter allocates indent / padding
-	// strings of the configured width, so widths between 10^3 and 2^50 are not probed (they
-	// would exhaust memory); from 2^50 on the allocation is refused and the handler panics.
+	// formatting: indent and alignment column.  The stored widths are bounded (32 / 500) since
+	// the repair of finding unbounded-width-panics.  Should a width above 1000 ever be stored
+	// again, the probe is not run between 10^3 and 2^50 (the formatter would allocate that many
+	// bytes per posting; the oracle rejects the stored value itself); from 2^50 on the
+	// allocation is refused, the handler panics and the probe reports it.
 	{
 		cur := srv.VerifGetSettings()
 		wi, wm := int64(cur.Formatting.IndentSize), int64(cur.Formatting.MinAlignmentColumn)
@@ -1439,37 +1518,41 @@ func genC19Seq(c *Ctx) {
 				}
 			}
 		}
-		overlap := r.IntN(5) == 0
+		overlap := r.IntN(4) == 0
 		nch := 1 + r.IntN(budget)
 		if overlap {
+			// several pulls in flight (2 to 5 changes), announced and answered under a random
+			// schedule: at every point either the next change arrives or one of the pending
+			// pulls — any of them — is answered.  "task" indexes the list of pending pulls.
 			c.Count("seq.overlap")
-			if nch < 2 {
-				nch = 2
-			}
-			var answers []any
-			for j := 0; j < nch; j++ {
-				p := g.payload()
-				pushed, pulled := c19PushPull(r, p)
-				events = append(events, map[string]any{"k": "change", "txt": pushed})
-				answers = append(answers, map[string]any{"k": "answer", "txts": []any{pulled}})
-			}
-			// answer in a random order: "task" indexes the list of still pending pulls
-			left := nch
-			perm := r.Perm(nch)
-			done := make([]bool, nch)
-			for _, k := range perm {
-				idx := 0
-				for q := 0; q < k; q++ {
-					if !done[q] {
-						idx++
+			nch = 2 + r.IntN(4)
+			var pendingAns []any
+			maxFlight := 0
+			issued := 0
+			for issued < nch || len(pendingAns) > 0 {
+				if issued < nch && (len(pendingAns) == 0 || r.IntN(5) < 3) {
+					p := g.payload()
+					pushed, pulled := c19PushPull(r, p)
+					events = append(events, map[string]any{"k": "change", "txt": pushed})
+					issued++
+					if cfg == true && first["client"] == nil {
+						pendingAns = append(pendingAns, map[string]any{"k": "answer", "txts": []any{pulled}})
 					}
+					if len(pendingAns) > maxFlight {
+						maxFlight = len(pendingAns)
+					}
+					continue
 				}
-				done[k] = true
-				a := answers[k].(map[string]any)
-				a["task"] = idx
+				k := r.IntN(len(pendingAns))
+				a := pendingAns[k].(map[string]any)
+				a["task"] = k
+				pendingAns = append(pendingAns[:k], pendingAns[k+1:]...)
 				events = append(events, a)
-				left--
+				if observe && r.IntN(4) == 0 {
+					events = append(events, map[string]any{"k": "observe", "reuse": r.IntN(2) == 0})
+				}
 			}
+			c.Count(fmt.Sprintf("seq.in-flight-%d", maxFlight))
 			if observe {
 				events = append(events, map[string]any{"k": "observe"})
 			}
@@ -1508,6 +1591,144 @@ func genC19Seq(c *Ctx) {
 		if observe {
 			c.Count("seq.observed")
 		}
+		c.Emit("c19.seq", c19SeqCase(c, events))
+	}
+}
+
+// genC19Targeted: scenario families aimed at the configuration defects that were repaired
+// (each is also reachable by the random stream above, but rarely).
+func genC19Targeted(c *Ctx) {
+	r := c.R
+	g := &c19Gen{r: r, c: c, safe: true}
+	text := func(v any) string { return c19Text(v) }
+	// (1) huge widths, then formatting and inline completion
+	widths := append(append([]string{}, c19HugeNums...), "33", "64", "501", "1000", "1001", "100000", "4294967296", "2147483648", "1e9", "1e12")
+	for i := 0; i < c.N(60, 1500); i++ {
+		lit := pick(r, widths)
+		var val any = c19num(lit)
+		if r.IntN(3) == 0 {
+			if f, err := strconv.ParseFloat(lit, 64); err == nil && f == math.Trunc(f) && math.Abs(f) < 9e18 {
+				val = strconv.FormatInt(int64(f), 10)
+			}
+		}
+		key := pick(r, []string{"indentSize", "minAlignmentColumn"})
+		var p any
+		switch r.IntN(4) {
+		case 0:
+			p = map[string]any{"formatting." + key: val}
+		case 1:
+			p = map[string]any{"formatting": map[string]any{key: val}}
+		case 2:
+			p = map[string]any{"hledger": map[string]any{"formatting": map[string]any{key: val}}}
+		default:
+			p = map[string]any{"hledger": nil, "formatting": map[string]any{key: val, "alignAmounts": r.IntN(2) == 0}}
+		}
+		cfg := r.IntN(3) != 0
+		var events []any
+		if r.IntN(2) == 0 {
+			events = append(events, map[string]any{"k": "init", "cfg": cfg, "txt": text(p)}, map[string]any{"k": "observe"})
+		} else {
+			events = append(events, map[string]any{"k": "init", "cfg": cfg, "txt": "null"})
+			pushed, pulled := c19PushPull(r, p)
+			events = append(events, map[string]any{"k": "change", "txt": pushed})
+			if cfg {
+				events = append(events, map[string]any{"k": "answer", "task": 0, "txts": []any{pulled}})
+			}
+			events = append(events, map[string]any{"k": "observe"})
+		}
+		c.Count("seq.targeted-width")
+		c.Emit("c19.seq", c19SeqCase(c, events))
+	}
+	// (2) a limit lowered (or raised) after a load, then the same files loaded again
+	sizes := []string{"1", "20", "24", "25", "30", "60", "71", "72", "73", "100", "1024", "10485760"}
+	depths := []string{"1", "2", "3", "4", "50"}
+	for i := 0; i < c.N(60, 1500); i++ {
+		cfg := r.IntN(3) != 0
+		limits := func() any {
+			m := map[string]any{}
+			if r.IntN(4) != 0 {
+				m[pick(r, []string{"maxFileSizeBytes", "maxFileSize"})] = c19num(pick(r, sizes))
+			}
+			if r.IntN(3) == 0 {
+				m["maxIncludeDepth"] = c19num(pick(r, depths))
+			}
+			return map[string]any{"limits": m}
+		}
+		events := []any{map[string]any{"k": "init", "cfg": cfg, "txt": "null"}}
+		if r.IntN(3) == 0 {
+			events[0].(map[string]any)["txt"] = text(limits())
+		}
+		events = append(events, map[string]any{"k": "observe"})
+		for round := 0; round < 1+r.IntN(3); round++ {
+			pushed, pulled := c19PushPull(r, limits())
+			events = append(events, map[string]any{"k": "change", "txt": pushed})
+			if cfg {
+				events = append(events, map[string]any{"k": "answer", "task": 0, "txts": []any{pulled}})
+			}
+			events = append(events, map[string]any{"k": "observe", "reuse": true})
+		}
+		c.Count("seq.targeted-limits")
+		c.Emit("c19.seq", c19SeqCase(c, events))
+	}
+	// (3) a client that cannot be asked: pushed settings, serial, with probes
+	for i := 0; i < c.N(60, 1500); i++ {
+		var cfg any = false
+		if r.IntN(2) == 0 {
+			cfg = nil
+		}
+		first := map[string]any{"k": "init", "cfg": cfg, "txt": "null"}
+		if r.IntN(6) == 0 {
+			first["client"] = false
+		}
+		events := []any{first}
+		if r.IntN(2) == 0 {
+			events = append(events, map[string]any{"k": "initialized"})
+		}
+		for j := 0; j < 1+r.IntN(4); j++ {
+			txt := g.payloadText()
+			if r.IntN(3) == 0 {
+				txt = text(map[string]any{"hledger": g.settingsMap()})
+			}
+			if r.IntN(12) == 0 {
+				txt = "null"
+			}
+			events = append(events, map[string]any{"k": "change", "txt": txt})
+			if r.IntN(3) == 0 {
+				events = append(events, map[string]any{"k": "observe", "reuse": r.IntN(2) == 0})
+			}
+		}
+		c.Count("seq.targeted-push")
+		c.Emit("c19.seq", c19SeqCase(c, events))
+	}
+	// (4) three and more pulls in flight, every order of the answers
+	for i := 0; i < c.N(40, 1000); i++ {
+		n := 3 + r.IntN(3)
+		events := []any{map[string]any{"k": "init", "cfg": true, "txt": "null"}}
+		var answers []any
+		for j := 0; j < n; j++ {
+			p := g.settingsMap()
+			pushed, pulled := c19PushPull(r, p)
+			events = append(events, map[string]any{"k": "change", "txt": pushed})
+			answers = append(answers, map[string]any{"k": "answer", "txts": []any{pulled}})
+		}
+		perm := r.Perm(n)
+		done := make([]bool, n)
+		for _, k := range perm {
+			idx := 0
+			for q := 0; q < k; q++ {
+				if !done[q] {
+					idx++
+				}
+			}
+			done[k] = true
+			a := answers[k].(map[string]any)
+			a["task"] = idx
+			events = append(events, a)
+		}
+		if r.IntN(3) == 0 {
+			events = append(events, map[string]any{"k": "observe"})
+		}
+		c.Count(fmt.Sprintf("seq.targeted-burst-%d", n))
 		c.Emit("c19.seq", c19SeqCase(c, events))
 	}
 }
